@@ -806,11 +806,9 @@ func runHist3(c *hlib.Ctx) {
 // transform with the same public state (theorems marching_cubes_conj + inverse_after_history).
 func runHistConj3(c *hlib.Ctx) {
 	g := &gen{c: c, dim: 3}
-	key := func(m *model3d.Mesh) map[model3d.Triangle]int {
-		r := map[model3d.Triangle]int{}
-		m.Iterate(func(t *model3d.Triangle) { r[*t]++ })
-		return r
-	}
+	// triangles up to rotation of their vertex order (orientation kept): both meshes come from MarchingCubesConj,
+	// which turns the triangles round when the matrix reverses orientation (intMatrix has determinants of both signs)
+	key := func(m *model3d.Mesh) map[model3d.Triangle]int { return orientedKey(m, false) }
 	for i := 0; i < 4; i++ {
 		x := &xf{kind: 'M', m: g.intMatrix()}
 		tok := x.tokens(3)
